@@ -513,8 +513,10 @@ class Run:
         }
         self.cov["known_findings_hit"] = [k["id"] for k in self.known]
         self.cov["broken"] = [b[1][:500] for b in self.broken]
-        os.makedirs(os.path.join(VERIF, "evidence"), exist_ok=True)
-        with open(os.path.join(VERIF, "evidence", self.id + ".json"), "w") as f:
+        # seeded-change trials (tools/try_seed.sh) must not overwrite the evidence of the real tree
+        evdir = os.environ.get("VERIF_EVIDENCE_DIR") or os.path.join(VERIF, "evidence")
+        os.makedirs(evdir, exist_ok=True)
+        with open(os.path.join(evdir, self.id + ".json"), "w") as f:
             json.dump(ev, f, indent=1, default=_jsondefault)
         for k in self.known:
             print("KNOWN-FINDING: property=%s %s %s" % (self.id, k["id"], k["what"]))
